@@ -15,6 +15,8 @@ structure Opts where
   split : Bool        -- one scan per component instead of one interleaved scan
   tblShift : Nat      -- table identifiers are rotated by this amount (mod 4)
   ri : Nat
+  jfif : Bool := false       -- JFIF APP0 segment after SOI, as jcmarker.c write_file_header writes it
+  ljDummies : Bool := false  -- dummy blocks as libjpeg's transcoding coefficient controller makes them
 
 def be16 (n : Nat) : List Nat := [(n / 256) % 256, n % 256]
 
@@ -86,6 +88,7 @@ def encode (o : Opts) (w h : Nat) (comps : List (Nat × Nat)) (qs : List (List N
   let vmax := f.comps.foldl (fun a c => max a c.v) 1
   let dri := marker o 0xDD (be16 o.ri)
   let mut s : List Nat := [0xFF, 0xD8]
+  if o.jfif then s := s ++ [0xFF, 0xE0, 0, 16, 0x4A, 0x46, 0x49, 0x46, 0, 1, 1, 0, 0, 1, 0, 1, 0, 0]
   if o.ri != 0 && o.driPos == 0 then s := s ++ dri
   -- DQT
   if o.joinTables then
@@ -121,7 +124,7 @@ def encode (o : Opts) (w h : Nat) (comps : List (Nat × Nat)) (qs : List (List N
     let mut rst := 0
     while m < total do
       let m1 := min total (m + step)
-      match mcuBits f hmax vmax coef cis tabs mcusX m m1 with
+      match mcuBits f hmax vmax coef cis tabs mcusX m m1 o.ljDummies with
       | none => return none
       | some bits => s := s ++ Bits.segmentBytes bits
       if m1 < total then
